@@ -18,8 +18,8 @@ for pid in ids:
         "evidence_file": f"/verif/evidence/{pid}.json",
         "replay_cmd_template": f"./check {pid} --replay {{path}}",
         "engine": "lean4-proof+correspondence",
-        "level_claimed": {"category": "proof", "text": c["level_text"], "design_ref": c.get("design_ref", "DESIGN.md §4 " + pid)},
-        "level_note": c["level_note"],
+        "level_claimed": {"category": "proof", "text": c.get("level_text", "Lean 4 theorems over an executable model of the code, tied to the source by a correspondence check (in progress; see notes)"), "design_ref": c.get("design_ref", "DESIGN.md §4 " + pid)},
+        "level_note": c.get("level_note", "see DESIGN.md and notes/%s.md" % pid),
         "technique": c.get("technique", "Lean 4 theorems over an executable model; model tied to source by regenerated tables and a differential correspondence check"),
     })
 m = {
